@@ -26,6 +26,19 @@ def main(argv):
                 else: print("  native (%s) output limbs/bytes: %s" % (profile, native.bytes_limbs(out[:nc["out_size"]], nc["out_cell"])))
             print("  recorded interpreter outputs:", rp.get("llsym_concrete_outputs"))
             n += 1
+    # group-level / protocol-level records keep one native call at the top level: {native_call, args (hex) | scalar ..., native_result, specification}
+    rp = rec.get("replay")
+    if isinstance(rp, dict) and rp.get("native_call") and isinstance(rp.get("args"), list):
+        cfg = rec.get("config") or "serial64"
+        for profile in ((rp.get("native_profile", "release").split()[0],) if rp.get("native_profile") else ("release",)):
+            try:
+                out = native.run(cfg, [(rp["native_call"], [bytes.fromhex(a) for a in rp["args"]])], profile=profile)[0]
+                print("  native %s (%s, %s): %s" % (rp["native_call"], cfg, profile, out.hex() if isinstance(out, bytes) else out))
+            except Exception as e: print("  native run failed:", str(e)[:300])
+        print("  recorded native result:", rp.get("native_result"), "| specification:", rp.get("specification"))
+        n += 1
+    elif rp is not None:
+        print("replay record:", json.dumps(rp, default=str)[:1500])
     for p in rec.get("failing_paths", []):
         print("failing path:", p)
     build.cleanup()
